@@ -368,6 +368,43 @@ func runC19(p *an.Prog, r *an.Run, tier string) {
 				bad = append(bad, "the connection is entered into "+field+" at "+p.Pos(in.Pos())+" before normalizeNodeURI has accepted the registration ("+p.Pos(nzCall.Pos())+"): a refused registration still replaces the host's live connection")
 			}
 		})
+		// ... nor is the node stored ahead of the decision: a record written before the address has been accepted stays
+		// behind when the registration is refused (a host without an address, or a registered host's address wiped)
+		for _, c := range an.Calls(conn, false) {
+			if !isStoreMethodNamed(an.CallObj(c), "SetNode") {
+				continue
+			}
+			if hit := an.PathAvoiding(conn, c.(ssa.Instruction), nil, func(x ssa.Instruction) bool { return x == ssa.Instruction(nzCall) }, nil); hit != nil {
+				bad = append(bad, "the node is stored at "+p.Pos(c.Pos())+" before normalizeNodeURI has accepted its address ("+p.Pos(nzCall.Pos())+"): a refused registration leaves a host record without (or with a wiped) address")
+			}
+		}
+		// ... and no host registration is answered with success without having gone through the normalisation and the
+		// store: "a repeat of a registration we hold already" acknowledges a new override (or an unusable one) while the
+		// pool goes on handing out the first address
+		{
+			isNz := func(x ssa.Instruction) bool { return x == ssa.Instruction(nzCall) }
+			var svc ssa.CallInstruction
+			for _, c := range an.Calls(conn, false) {
+				if an.IsFunc(an.CallObj(c), pkgRPC, "CtxService") {
+					svc = c
+				}
+			}
+			if svc != nil {
+				okRet := func(x ssa.Instruction) bool {
+					ret, ok := x.(*ssa.Return)
+					if !ok {
+						return false
+					}
+					cls, _ := returnClass(ret)
+					return cls == "nil"
+				}
+				for _, e := range an.ErrEdges(svc).Succ {
+					if hit := pathFromBlock(conn, e.To, isNz, okRet); hit != nil {
+						bad = append(bad, "a host's connect can succeed (return at "+p.Pos(hit.Pos())+") without its address having been normalised and stored by this call")
+					}
+				}
+			}
+		}
 		// the stored URI is the normalised one
 		okStore := false
 		an.AllInstrs(conn, func(in ssa.Instruction) {
